@@ -6,6 +6,7 @@
 import Proofs.TimeRoundtrip
 import Proofs.TimeCanon
 import Proofs.TimeInstant
+import Asn1.Generated
 
 namespace Asn1.C20
 open Asn1.Time
@@ -69,6 +70,14 @@ theorem canon_inner_zero_counterexample :
 theorem canon_refuses_nonutc (k : Kind) (s : List Char) (i : Instant)
     (h : instant k s = some i) (ho : i.off ≠ some 0) : canonTime k s = .error .liberr :=
   canonTime_refuses_nonutc h ho
+
+/-- the CER and the DER encoder tables (generated from the source on every run) both serve the two time
+    types with the classes whose `encodeValue` is `canonTime`: one model covers both codecs -/
+theorem time_encoder_rows_match_source :
+    Generated.cerEncRows.lookup "GeneralizedTime" = some "cer.GeneralizedTimeEncoder"
+    ∧ Generated.derEncRows.lookup "GeneralizedTime" = some "cer.GeneralizedTimeEncoder"
+    ∧ Generated.cerEncRows.lookup "UTCTime" = some "cer.UTCTimeEncoder"
+    ∧ Generated.derEncRows.lookup "UTCTime" = some "cer.UTCTimeEncoder" := by decide
 
 /-- any offset sign is refused, also `+0000` -/
 theorem canon_refuses_sign (k : Kind) (s : List Char) (h : '+' ∈ s ∨ '-' ∈ s) :
